@@ -101,6 +101,9 @@ def apply(I, st, f, args, kw, frame, node):
     if isinstance(f, FuncV):
         if isinstance(f.fn, ast.Lambda):
             raise Unsupported('calling a lambda in %s' % frame.qual())
+        if len(args) == 1 and not kw and is_number_formatter(I, f):
+            # pure rendering of one number as text: kept symbolic (the helper's own body is analysed by C07)
+            return [(st, Cat([('fmt', args[0], '', 'fn:%s' % f.fn.name)]))]
         return I.run_fn(st, None, f.mod, f.fn, None, args, kw, frame.depth + 1, node)
     if isinstance(f, ExtFn):
         from .externals import call_ext
@@ -133,3 +136,36 @@ def construct(I, st, cname, args, kw, frame, node):
     for (s2, v) in I.run_fn(st, c, I.m.classes[c].module, init, o, args, kw, frame.depth + 1, node):
         out.append((s2, v if isinstance(v, Raised) else o))
     return out
+
+
+def is_number_formatter(I, f):
+    """a module-level function of one argument that, run in isolation on a symbolic float, has no effect and returns on
+    every path a string depending on nothing but that argument"""
+    cache = I.__dict__.setdefault('_formatters', {})
+    key = (f.mod, f.fn.name)
+    if key in cache:
+        return cache[key]
+    cache[key] = False          # recursion guard
+    ok = False
+    a = f.fn.args
+    if len(a.args) == 1 and not a.vararg and not a.kwarg:
+        from .state import State
+        st = State()
+        arg = I.symbol('arg:fmt:%s' % f.fn.name, kind='arg')
+        try:
+            res = I.run_fn(st, None, f.mod, f.fn, None, [arg], {}, 1)
+        except Exception:  # noqa
+            res = None
+        if res:
+            ok = True
+            for (s, v) in res:
+                if isinstance(v, Raised) or any(e[0] not in ('call', 'convert') for e in s.trace):
+                    ok = False
+                    break
+                from .pathfacts import live_alts
+                for x in live_alts(s, v):
+                    if not isinstance(x, (Cat, Str)) or not (deps_of(x) <= {'arg:fmt:%s' % f.fn.name}):
+                        ok = False
+            cache[key + ('results',)] = res
+    cache[key] = ok
+    return ok
